@@ -384,6 +384,7 @@ def hCliPlan (j : Json) : D Json := do
     | .error _ => []
   pure (Json.mkObj [
     ("plan", encR (jarr jstr) (cliOutputPlan outName writeLog outs prefix_)),
+    ("log_line", jstr (curationLogLine stats)),
     ("info", Json.mkObj [("assemblies", jarr (fun (p : Str × Int × Int) => Json.arr #[jstr p.1, jint p.2.1, jint p.2.2]) info.assemblies),
                          ("manual_breaks", jopt jint info.manualBreaks), ("manual_joins", jopt jint info.manualJoins),
                          ("manual_haplotig_removals", jint info.haplotigRemovals)]),
